@@ -199,6 +199,23 @@ def run(ctx):
         share(ctx, "C12", ("R12.1",), "R11.9", "value-token obligations shared with C12", 1)
         share(ctx, "C03", ("R03.8",), "R11.9", "bound-variable-name obligations shared with C03", 1)
         share(ctx, "C13", ("R13.9",), "R11.9", "single-source-of-declarations obligations shared with C13", 1)
+    # ---- R11.10: reversible means DECLARED reversible
+    ctx.rule("R11.10", "who-may-write: toggle::reversable_ is set by allow_reverse() only, and nothing in the library calls allow_reverse() on the user's behalf (a default of true, a short name, a group do not make a toggle reversible)")
+    REV = NS + "toggle::reversable_"
+    writers = []
+    for g in sorted(prog.fns.values(), key=lambda x: x.id):
+        if not g.has_cfg or not g.file.startswith("/repo/") or g.kind in ("ctor",):
+            continue
+        for (w, base, n2, b2, i2, how) in cg.field_writes(g):
+            if w == REV and how in ("write", "init"):
+                writers.append((g, n2))
+    setters = sorted({short(g.qual) for g, _ in writers})
+    ctx.check(setters in (["allow_reverse"], ["toggle::allow_reverse"]), "R11.10", NS + "toggle", "reversable-written-by-its-setter-only", "toggle::reversable_ is written by %s" % setters, "-", why_ok="only allow_reverse() writes it")
+    ar = prog.fn(NS + "toggle::allow_reverse()")
+    if ctx.anchor("R11.10", "toggle::allow_reverse", ar is not None):
+        callers = sorted(short(c.split("(")[0]) for c in cg.callers(ar.id) if prog.fn(c) is not None and prog.fn(c).file.startswith("/repo/"))
+        ctx.check(not callers, "R11.10", ar, "allow_reverse-called-by-the-user-only", "allow_reverse() is called by %s: a toggle becomes reversible without having been declared so, `--no-<name>` is accepted for it" % callers, ar,
+                  why_ok="no caller inside the library")
     # ---- R11.4
     pe = one(ctx, "R11.4", NS + "toggle::parse_env_value")
     if pe:
@@ -406,6 +423,7 @@ def _guard_literals(fn, ret_bid, pname):
                     if tl is not None:
                         lits.update(tl)
                         continue
+                _SCOPE[:] = [fn]
                 ml = _membership_literals(_PROG[0], ir.unwrap(t["cond"]), pname) if _PROG else None
                 if ml is not None:
                     lits.update(ml)
@@ -420,6 +438,7 @@ def _guard_literals(fn, ret_bid, pname):
 
 
 _PROG = []
+_SCOPE = []  # the function whose guards are being read (for tables that are function-local statics)
 _RECOGNISED = set()  # renderings of membership tests over constant tables that _guard_literals has resolved
 
 
@@ -447,9 +466,22 @@ def _table_of(a, b):
             ci = ir.unwrap(a["const_init"])
             if isinstance(n, dict) and n.get("k") == "lit" and isinstance(ci, dict) and n.get("v") == len(ci.get("elems", [])):
                 ta = tb = a
-    if not (isinstance(ta, dict) and isinstance(tb, dict) and ta.get("k") == "ref" and ta.get("const_init") is not None and ta.get("decl") == tb.get("decl")):
-        return None
-    ci = ir.unwrap(ta["const_init"])
+    ci = None
+    if isinstance(ta, dict) and isinstance(tb, dict) and ta.get("k") == "ref" and ta.get("decl") == tb.get("decl") and str(ta.get("decl", "")).startswith("local:") and _SCOPE:
+        # a function-local `static const` table (array / std::array of literals, possibly with the doubled braces of std::array)
+        nm = ta["decl"][6:]
+        ds = [v for _, _, e in _SCOPE[0].roots() if e["expr"].get("k") == "decl" for v in e["expr"].get("vars", []) if v["name"] == nm]
+        if len(ds) == 1 and ds[0].get("static") and (ds[0].get("type") or "").startswith("const ") and ds[0].get("init") is not None:
+            ci = ir.unwrap(ds[0]["init"])
+            while isinstance(ci, dict) and ci.get("k") in ("construct", "cast") and (ci.get("e") is not None or len(ci.get("args", [])) == 1):
+                ci = ir.unwrap(ci.get("e") if ci.get("e") is not None else ci["args"][0])
+            while isinstance(ci, dict) and ci.get("k") == "init_list" and len(ci.get("elems", [])) == 1 and isinstance(ir.unwrap(ci["elems"][0]), dict) and ir.unwrap(ci["elems"][0]).get("k") == "init_list":
+                ci = ir.unwrap(ci["elems"][0])
+    elif isinstance(ta, dict) and isinstance(tb, dict) and ta.get("k") == "ref" and ta.get("const_init") is not None and ta.get("decl") == tb.get("decl"):
+        ci = ir.unwrap(ta["const_init"])
+    # (std::array is an aggregate around an array: its initialiser has one more pair of braces)
+    while isinstance(ci, dict) and ci.get("k") == "init_list" and len(ci.get("elems", [])) == 1 and isinstance(ir.unwrap(ci["elems"][0]), dict) and ir.unwrap(ci["elems"][0]).get("k") == "init_list":
+        ci = ir.unwrap(ci["elems"][0])
     if not (isinstance(ci, dict) and ci.get("k") == "init_list"):
         return None
     out = set()
